@@ -257,8 +257,16 @@ func vOpValid(s *Server, op *proto.RaftLog) bool {
 	case proto.Op_SET_STREAM_READONLY:
 		err = m.checkSetStreamReadonlyPreconditions(op)
 	case proto.Op_SHRINK_ISR:
+		// the request names the leader generation its sender (the partition
+		// leader) knows: the current one
+		if p := m.GetPartition(op.ShrinkISROp.Stream, op.ShrinkISROp.Partition); p != nil {
+			op.ShrinkISROp.Leader, op.ShrinkISROp.LeaderEpoch = p.GetLeader()
+		}
 		err = m.checkShrinkISRPreconditions(op)
 	case proto.Op_EXPAND_ISR:
+		if p := m.GetPartition(op.ExpandISROp.Stream, op.ExpandISROp.Partition); p != nil {
+			op.ExpandISROp.Leader, op.ExpandISROp.LeaderEpoch = p.GetLeader()
+		}
 		err = m.checkExpandISRPreconditions(op)
 	case proto.Op_CHANGE_LEADER:
 		err = m.checkChangeLeaderPreconditions(op)
@@ -304,6 +312,7 @@ func VerifC06FSM() {
 		if !vOpValid(a, op) {
 			return // only valid histories
 		}
+		vCover("op-" + op.Op.String()) // every kind of operation occurs in some valid history
 		data := vMarshalOp(op)
 		datas = append(datas, data)
 		l := &raft.Log{Index: uint64(i), Type: raft.LogCommand, Data: data}
